@@ -43,6 +43,7 @@ SessionObject::SessionObject(SessionObjectStore* inParent, CK_SLOT_ID inSlotID, 
 	objectMutex = MutexFactory::i()->getMutex();
 	valid = (objectMutex != NULL);
 	parent = inParent;
+	inTransaction = false;
 }
 
 // Destructor
@@ -295,21 +296,83 @@ void SessionObject::discardAttributes()
 		delete i->second;
 		i->second = NULL;
 	}
+
+	discardBackup();
+	inTransaction = false;
 }
 
-// These functions are just stubs for session objects
+// Discard the copy of the attributes made by startTransaction()
+void SessionObject::discardBackup()
+{
+	std::map<CK_ATTRIBUTE_TYPE, OSAttribute*> cleanUp = backup;
+	backup.clear();
+
+	for (std::map<CK_ATTRIBUTE_TYPE, OSAttribute*>::iterator i = cleanUp.begin(); i != cleanUp.end(); i++)
+	{
+		delete i->second;
+	}
+}
+
+// Session objects only live in memory, but a failed update (e.g. a template
+// that is rejected half-way) must still be rolled back: keep a copy of the
+// attributes for the duration of the transaction
 bool SessionObject::startTransaction(Access)
 {
+	MutexLocker lock(objectMutex);
+
+	// A nested start keeps the copy made by the outermost one
+	if (inTransaction) return true;
+
+	for (std::map<CK_ATTRIBUTE_TYPE, OSAttribute*>::iterator i = attributes.begin(); i != attributes.end(); i++)
+	{
+		if (i->second == NULL)
+		{
+			continue;
+		}
+
+		backup[i->first] = new OSAttribute(*i->second);
+	}
+
+	inTransaction = true;
+
 	return true;
 }
 
 bool SessionObject::commitTransaction()
 {
+	MutexLocker lock(objectMutex);
+
+	discardBackup();
+	inTransaction = false;
+
 	return true;
 }
 
 bool SessionObject::abortTransaction()
 {
+	MutexLocker lock(objectMutex);
+
+	if (!inTransaction) return true;
+
+	if (valid)
+	{
+		// Restore the attributes as they were at the start of the transaction
+		std::map<CK_ATTRIBUTE_TYPE, OSAttribute*> cleanUp = attributes;
+		attributes = backup;
+		backup.clear();
+
+		for (std::map<CK_ATTRIBUTE_TYPE, OSAttribute*>::iterator i = cleanUp.begin(); i != cleanUp.end(); i++)
+		{
+			delete i->second;
+		}
+	}
+	else
+	{
+		discardBackup();
+	}
+
+	inTransaction = false;
+
 	return true;
 }
 
